@@ -30,38 +30,42 @@ def run(tier, seed, replay_file=None):
         base = universe.all_designs(tier, seed)
         planted = faults.plant_all(base, tier, rnd)
         designs = base + planted
-    jobs, evs, verdicts, gen = conn.run_designs(designs, "c02", styles=("proc",))
-    o.transitions += gen
-    o.states += conn.validate.distinct
-    o.traces = o.evaluations = len(evs)
     nt = 0
-    for tid, (ok, clause) in verdicts.items():
-        c = clause.split(":")[0]
-        ev = evs[tid]
-        if c == "ok_fault_rejected" or c.startswith("fault_not_rejected"):
-            nt += 1
-            rules = clause.split(":", 1)[1] if ":" in clause else ""
-            for r in rules.strip("{}").replace('"', "").split(","):
-                r = r.strip()
-                if r:
-                    o.cover["fault_" + r] = o.cover.get("fault_" + r, 0) + 1
-            o.cover["fam_" + ev["fam"]] = o.cover.get("fam_" + ev["fam"], 0) + 1
-        if c.startswith("fault_not_rejected"):
-            rules = clause.split(":", 1)[1] if ":" in clause else ""
-            feats = ["fault_" + r.strip() for r in rules.strip("{}").replace('"', "").split(",") if r.strip()] + ["fam_" + ev["fam"]]
-            if "accepted_" + "_".join(ev["accepted"]) not in feats:
-                feats.append("accepted_" + "_".join(ev["accepted"]))
-            o.violations.append(Violation(clause=c, case={"D": ev["D"], "style": ev["style"], "family": ev["fam"]}, features=feats,
-                                          detail={"accepted": ev["accepted"]}))
+    samples_pool = []
+    CH = 12000          # chunked: the events of a thorough run (100k+ designs with their packages) do not fit in memory at once
+    for c0 in range(0, len(designs), CH):
+        jobs, evs, verdicts, gen = conn.run_designs(designs[c0:c0 + CH], "c02", styles=("proc",))
+        o.transitions += gen
+        o.traces += len(evs)
+        o.evaluations += len(evs)
+        for tid, (ok, clause) in verdicts.items():
+            c = clause.split(":")[0]
+            ev = evs[tid]
+            if c == "ok_fault_rejected" or c.startswith("fault_not_rejected"):
+                nt += 1
+                rules = clause.split(":", 1)[1] if ":" in clause else ""
+                for r in rules.strip("{}").replace('"', "").split(","):
+                    r = r.strip()
+                    if r:
+                        o.cover["fault_" + r] = o.cover.get("fault_" + r, 0) + 1
+                o.cover["fam_" + ev["fam"]] = o.cover.get("fam_" + ev["fam"], 0) + 1
+                if c == "ok_fault_rejected" and len(samples_pool) < 200:
+                    samples_pool.append({"family": ev["fam"], "fault": clause, "exception": ev["exc"],
+                                         "top_instances": [i for i in ev["D"]["mods"][ev["D"]["top"]]["insts"] if not i["n"].startswith("pr_")][:4]})
+            if c.startswith("fault_not_rejected"):
+                rules = clause.split(":", 1)[1] if ":" in clause else ""
+                feats = ["fault_" + r.strip() for r in rules.strip("{}").replace('"', "").split(",") if r.strip()] + ["fam_" + ev["fam"]]
+                if "accepted_" + "_".join(ev["accepted"]) not in feats:
+                    feats.append("accepted_" + "_".join(ev["accepted"]))
+                o.violations.append(Violation(clause=c, case={"D": ev["D"], "style": ev["style"], "family": ev["fam"]}, features=feats,
+                                              detail={"accepted": ev["accepted"]}))
+        del jobs, evs, verdicts
+    o.states += conn.validate.distinct
     o.distinct_nontrivial = nt
     o.level = "fault_enumeration"
     o.required_cover = ["fault_width_mismatch", "fault_missing_connection", "fault_connection_to_missing_port", "fault_ref_to_missing_port",
                         "fault_ref_to_missing_bundle_member", "fault_index_out_of_range", "fault_empty_slice", "fault_bundle_mismatch",
                         "fault_noconn_in_concat", "fault_noconn_in_anon_bundle", "fault_noconn_port_is_referenced", "fault_circular_instantiation",
                         "fault_foreign_or_orphan_signal", "fault_unnamed_module", "fault_module_name_clash"]
-    fl = [t for t, (ok, c) in verdicts.items() if c.startswith("ok_fault_rejected")]
-    for tid in rnd.sample(fl, min(3, len(fl))):
-        ev = evs[tid]
-        o.samples.append({"family": ev["fam"], "fault": verdicts[tid][1], "exception": ev["exc"],
-                          "top_instances": [i for i in ev["D"]["mods"][ev["D"]["top"]]["insts"] if not i["n"].startswith("pr_")][:4]})
+    o.samples = rnd.sample(samples_pool, min(3, len(samples_pool)))
     return o
